@@ -51,11 +51,19 @@ def transforms(nargs, float_first, axes_seed):
         # batch only the first argument
         T["vmap_first_only"] = (lambda f: jax.vmap(f, in_axes=(0,) + (None,) * (nargs - 1)), lambda shapes: [(2,) + tuple(shapes[0])] + [tuple(s) for s in shapes[1:]])
     T["vmap_trailing"] = (lambda f: jax.vmap(f, in_axes=-1), lambda shapes: [tuple(s) + (2,) for s in shapes])
+    if nargs >= 2:
+        # first operand batched at its last axis, the others unbatched (different batch placement per operand)
+        T["vmap_mixed_axes"] = (lambda f: jax.vmap(f, in_axes=(-1,) + (None,) * (nargs - 1)), lambda shapes: [tuple(shapes[0]) + (2,)] + [tuple(s) for s in shapes[1:]])
     T["vmap_out_last"] = (lambda f: jax.vmap(f, in_axes=0, out_axes=-1), lambda shapes: [(2,) + tuple(s) for s in shapes])
     if float_first:
         T["grad"] = (lambda f: jax.grad(scal(f)), ident)
         T["jvp"] = (lambda f: (lambda *a: jax.jvp(scal(f), a[:1], (jnp.ones_like(a[0]),))[1] if nargs == 1 else jax.jvp(lambda x0: scal(f)(x0, *a[1:]), a[:1], (jnp.ones_like(a[0]),))[1]), ident)
         T["vjp"] = (lambda f: (lambda *a: jax.vjp(lambda x0: scal(f)(x0, *a[1:]), a[0])[1](jnp.float32(1.0))[0]), ident)
+
+        if nargs >= 2:
+            # differentiate w.r.t. a non-leading argument: the leading operands carry symbolic-zero tangents
+            T["grad_last"] = (lambda f: jax.grad(scal(f), argnums=nargs - 1), ident)
+            T["jvp_last"] = (lambda f: (lambda *a: jax.jvp(lambda z: scal(f)(*a[:-1], z), a[-1:], (jnp.ones_like(a[-1]),))[1]), ident)
 
         def cjvp(f):
             @jax.custom_jvp
@@ -111,6 +119,8 @@ def check_fn(fid, fn, shapes, dtypes, tnames, acc=None, sigbase=None, case=None,
         base_ok = False
     for tname in tnames:
         if tname not in T:
+            continue
+        if tname in ("grad_last", "jvp_last") and np.dtype(dtypes[-1]).kind != "f":
             continue
         build, smap = T[tname]
         sh = smap([tuple(s) for s in shapes])
@@ -210,7 +220,8 @@ def check_program(prog, tnames, acc=None):
     return check_fn(digest(prog["stmts"]), fn, shapes, dts, tnames, acc, {"layer": "program", "ops": ops[:6]}, {"kind": "program", "prog": prog})
 
 
-ALL_T = ["jit", "jit_jit", "inner_jit", "checkpoint", "vmap_lead", "vmap_first_only", "vmap_trailing", "vmap_out_last", "grad", "jvp", "vjp", "custom_jvp_grad", "custom_vjp_grad"]
+ALL_T = ["jit", "jit_jit", "inner_jit", "checkpoint", "vmap_lead", "vmap_first_only", "vmap_trailing", "vmap_out_last", "grad", "jvp", "vjp", "custom_jvp_grad", "custom_vjp_grad",
+         "grad_last", "jvp_last", "vmap_mixed_axes"]
 
 
 def list_ids(_):
@@ -269,10 +280,10 @@ def work(sh):
         @hypothesis.seed(derive_seed(sh["seed"], "c10prog", sh["shard"]))
         @settings(max_examples=sh["examples"], deadline=None, database=None, suppress_health_check=list(HealthCheck),
                   phases=[Phase.generate], report_multiple_bugs=False)
-        @given(progen.programs(max_stmts=5, allow=("ew", "shape", "red", "linalg"), input_kinds=(progen.F,), n_outputs=(1, 1)),
+        @given(progen.programs(max_stmts=6, allow=("ew", "ew", "shape", "red", "linalg"), input_kinds=(progen.F,), n_outputs=(1, 1)),
                st.lists(st.sampled_from(ALL_T[1:]), min_size=sh["per"], max_size=sh["per"], unique=True))
         def t(prog, tn):
-            vs = check_program(prog, ["jit"] + tn, acc)
+            vs = check_program(prog, ["jit", "grad", "grad_last"] + [x for x in tn if x not in ("grad", "grad_last")], acc)
             if not vs and len(acc.samples) < 1:
                 acc.samples.append({"program": [[s["op"], s.get("kw", {}).get("f", "")] for s in prog["stmts"]][:8], "transformations": tn})
             for v in vs:
